@@ -71,6 +71,8 @@ ByVal(ts, i) ==
 RECURSIVE Strip(_, _)
 Strip(ts, i) == IF i = 0 THEN 0 ELSE IF ts[i].k \in {"typedef", "const"} THEN Strip(ts, ts[i].t) ELSE i
 
+RECURSIVE HasTopConst(_, _)
+HasTopConst(ts, i) == i # 0 /\ (ts[i].k = "const" \/ (ts[i].k = "typedef" /\ HasTopConst(ts, ts[i].t)))
 IsIntegerLike(ts, i) == i # 0 /\ LET s == Strip(ts, i) IN ts[s].k = "base" /\ ts[s].id \in IntegerBases
 IsScalar(ts, i) == i # 0 /\ LET s == Strip(ts, i) IN ts[s].k \in {"base", "ptr", "enum", "fnptr"}
 IsArrayLike(ts, i) == i # 0 /\ ts[Strip(ts, i)].k = "array"
@@ -269,7 +271,7 @@ Harmless ==
          /\ fresh' = fresh + 1
          /\ UNCHANGED <<fns2, vars2>> /\ Log(Mut("typedef-rename", "harmless", i, 0, 0))
   \/ pick = "param-top-const" /\ \E k \in 1..Len(fns2) : \E p \in 1..Len(fns2[k].p) :
-         /\ ~fns2[k].p[p].c
+         /\ ~fns2[k].p[p].c /\ ~HasTopConst(types2, fns2[k].p[p].t)
          /\ fns2' = [fns2 EXCEPT ![k].p[p].c = TRUE]
          /\ UNCHANGED <<types2, vars2, fresh>> /\ Log(Mut("param-top-const", "harmless", 0, fns2[k].id, p))
 
